@@ -155,6 +155,8 @@ pub enum RawMsg {
     Reset { id: u32 },
     Finish { id: u32 },
     Push { id: u32, len: u32 },
+    /// Push on the flow of stream `stream` carrying that stream's payload function from `off` (so that the reader's content check applies)
+    PushFor { id: u32, stream: u32, off: u32, len: u32 },
     Bind { id: u32, dgram: bool, port: u16, host: Vec<u8> },
     Datagram { id: u32, port: u16, host: Vec<u8>, data: Vec<u8> },
     Bytes(Vec<u8>),
@@ -173,6 +175,10 @@ impl RawMsg {
             RawMsg::Finish { id } => b(Frame::new_finish(*id)),
             RawMsg::Push { id, len } => {
                 let data: Vec<u8> = (0..*len).map(|i| raw_byte(*id, i as usize)).collect();
+                b(Frame::new_push(*id, &data))
+            }
+            RawMsg::PushFor { id, stream, off, len } => {
+                let data: Vec<u8> = (0..*len).map(|i| pay(*stream as usize, 1 - 0, (*off + i) as usize)).collect();
                 b(Frame::new_push(*id, &data))
             }
             RawMsg::Bind { id, dgram, port, host } => b(Frame::new_bind(*id, if *dgram { BindType::Datagram } else { BindType::Stream }, host, *port)),
@@ -211,6 +217,8 @@ pub enum Trigger {
     ForcedAt(u32),
     /// fired only when the system is otherwise quiescent, in list order
     Quiescent,
+    /// enabled (schedulable) once the event with that index has fired
+    AfterEvent(u32),
 }
 
 #[derive(Clone, Debug, Hash, PartialEq, Eq, Serialize, Deserialize)]
@@ -230,6 +238,9 @@ pub struct RawPolicy {
     pub ack_every: Option<u32>,
     /// answer Close with Close (a conforming peer); false = stay silent
     pub answer_close: bool,
+    /// Connects whose host tag names one of these streams are left unanswered
+    #[serde(default)]
+    pub no_ack_streams: Vec<u32>,
 }
 
 #[derive(Clone, Debug, Hash, PartialEq, Eq, Serialize, Deserialize)]
@@ -247,6 +258,9 @@ pub struct Case {
     pub raw: Option<RawPolicy>,
     pub events: Vec<RawEvent>,
     pub schedule: Vec<u8>,
+    /// number of quiescence-triggered events that must have fired before the schedule bytes are used (fair sweeps until then)
+    #[serde(default)]
+    pub sched_phase: u8,
 }
 
 impl Default for BindPolicy {
@@ -270,6 +284,7 @@ impl Default for Case {
             raw: None,
             events: vec![],
             schedule: vec![],
+            sched_phase: 0,
         }
     }
 }
@@ -397,6 +412,25 @@ pub async fn yield_once() {
 // ------------------------------------------------------------------ stream scripts
 
 pub type StreamCell = Rc<RefCell<Option<MuxStream>>>;
+thread_local! {
+    /// wakers of stream-half tasks that are pending; woken when a sibling half drops the stream
+    static HALF_WAKERS: RefCell<Vec<std::task::Waker>> = const { RefCell::new(Vec::new()) };
+}
+fn note_pending(cx: &std::task::Context<'_>) {
+    HALF_WAKERS.with(|w| {
+        let mut w = w.borrow_mut();
+        if w.len() > 256 {
+            w.clear();
+        }
+        w.push(cx.waker().clone());
+    });
+}
+fn wake_halves() {
+    let ws: Vec<_> = HALF_WAKERS.with(|w| w.borrow_mut().drain(..).collect());
+    for w in ws {
+        w.wake();
+    }
+}
 
 pub fn err_kind(e: &std::io::Error) -> String {
     format!("{:?}", e.kind())
@@ -432,6 +466,7 @@ pub async fn run_writer(cell: StreamCell, stream: usize, end: usize, ops: Vec<WO
                     log.app(AppEv::Dropped { stream, end });
                 }
                 drop(s);
+                wake_halves();
                 return;
             }
             WOp::Write(len) => {
@@ -443,6 +478,7 @@ pub async fn run_writer(cell: StreamCell, stream: usize, end: usize, ops: Vec<WO
                         None => Poll::Ready(None),
                         Some(s) => match Pin::new(s).poll_write(cx, &buf) {
                             Poll::Pending => {
+                                note_pending(cx);
                                 if !blocked {
                                     blocked = true;
                                     log.app(AppEv::WriteBlocked { stream, end });
@@ -482,6 +518,7 @@ pub async fn run_writer(cell: StreamCell, stream: usize, end: usize, ops: Vec<WO
                             let slices: Vec<std::io::IoSlice<'_>> = bufs.iter().map(|b| std::io::IoSlice::new(b)).collect();
                             match Pin::new(s).poll_write_vectored(cx, &slices) {
                                 Poll::Pending => {
+                                    note_pending(cx);
                                     if !blocked {
                                         blocked = true;
                                         log.app(AppEv::WriteBlocked { stream, end });
@@ -527,6 +564,7 @@ pub async fn run_reader(cell: StreamCell, stream: usize, end: usize, ops: Vec<RO
                     log.app(AppEv::Dropped { stream, end });
                 }
                 drop(s);
+                wake_halves();
                 return;
             }
             ROp::Read(n) | ROp::ToEof(n) => {
@@ -542,6 +580,7 @@ pub async fn run_reader(cell: StreamCell, stream: usize, end: usize, ops: Vec<RO
                                 let mut rb = ReadBuf::new(&mut buf);
                                 match Pin::new(s).poll_read(cx, &mut rb) {
                                     Poll::Pending => {
+                                        note_pending(cx);
                                         if !blocked {
                                             blocked = true;
                                             log.app(AppEv::ReadBlocked { stream, end });
@@ -591,6 +630,7 @@ pub async fn run_reader(cell: StreamCell, stream: usize, end: usize, ops: Vec<RO
                         None => Poll::Ready(None),
                         Some(s) => match Pin::new(&mut *s).poll_fill_buf(cx) {
                             Poll::Pending => {
+                                note_pending(cx);
                                 if !blocked {
                                     blocked = true;
                                     log.app(AppEv::ReadBlocked { stream, end });
